@@ -141,10 +141,10 @@ def run(tier):
     # choice / optional / closure / join skeletons), with the texts that fail right after each cut
     from .c05 import universe as cut_universe
     cutitems = cut_universe('quick')
-    kcut = 6 if tier == 'quick' else 2
+    kcut = 3 if tier == 'quick' else 1
     ncut = 0
     for it in cutitems[seed % kcut::kcut]:
-        ts = [t for t in it['texts'] if len(t) <= 4][:: (2 if tier == 'quick' else 1)]
+        ts = [t for t in it['texts'] if len(t) <= 4]
         jobs.add(it['g'], make_cfg(chars_of(it['g'], ts), nameguard=False), ts, start='s')
         cases.append(default_case(to_ebnf(it['g']), ts, start='s', settings={'nameguard': False}))
         allg.append(it['g'])
